@@ -90,7 +90,9 @@ def contradicts(facts, g):
         # literal bound reasoning on a shared non-literal operand
         if _lit_bounds(cf, (g[0], L, R)):
             return True
-        return _difference_unsat(list(cf) + [(g[0], L, R)])
+        if _difference_unsat(list(cf) + [(g[0], L, R)]):
+            return True
+        return _opposite_forms_unsat(list(cf), (g[0], L, R))
     else:
         K = rw(g[1])
         other = "false" if g[0] == "true" else "true"
@@ -247,3 +249,43 @@ def _difference_unsat(facts):
         if not changed:
             return False
     return True
+
+
+def _form(f):
+    """(op, L, R) with op in < <= ==  ->  list of (coeff dict, const, strict):  sum(coeff*atom) (<|<=) const"""
+    if f[0] not in ("<", "<=", "=="):
+        return []
+    a, b = _linear(f[1]), _linear(f[2])
+    if a is None or b is None:
+        return []
+    co = dict(a[0])
+    for x, c in b[0].items():
+        co[x] = co.get(x, 0) - c
+    co = {x: c for x, c in co.items() if c != 0}
+    k = b[1] - a[1]
+    if f[0] == "==":
+        return [(co, k, False), ({x: -c for x, c in co.items()}, -k, False)]
+    return [(co, k, f[0] == "<")]
+
+
+def _opposite_forms_unsat(facts, g):
+    """F: L <= kF  and  G: -L*t <= kG (t>0)  =>  unsat iff kF*t + kG < 0 (or == 0 with a strict side)."""
+    gf = _form(g)
+    for (cg, kg, sg) in gf:
+        if not cg:
+            continue
+        for f in facts:
+            for (cf_, kf, sf) in _form(f):
+                if set(cf_) != set(cg):
+                    continue
+                x0 = next(iter(cg))
+                if cf_[x0] == 0:
+                    continue
+                t = -cg[x0] / cf_[x0]
+                if t <= 0:
+                    continue
+                if all(abs(cf_[x] * t + cg[x]) < 1e-12 for x in cg):
+                    tot = kf * t + kg
+                    if tot < 0 or (tot == 0 and (sf or sg)):
+                        return True
+    return False
